@@ -90,6 +90,8 @@ type node struct {
 	atGate     bool
 	lastPicked int
 	smPasses   int
+	batch      int // events still to be applied before the held kernel is released (BATCH event)
+	pref       int // select case polled first in the next pass (-1: natural order)
 
 	proposalsSent int
 	startErr string
@@ -452,6 +454,7 @@ func (n *node) start() {
 	if n.gateSM && tmstate.VerifSelectCountStatemachine > 0 {
 		n.gate = make(chan struct{})
 		n.atGate = false
+		n.pref = -1
 		ctx := n.ctx
 		tmstate.VerifSetSelectHooks(func(name string, cases int) []int {
 			if !strings.HasPrefix(name, "handleLiveEvent") {
@@ -463,10 +466,16 @@ func (n *node) start() {
 			case <-ctx.Done():
 			}
 			n.atGate = false
-			order := make([]int, cases)
-			for i := range order {
-				order[i] = i
+			order := make([]int, 0, cases)
+			if n.pref >= 0 && n.pref < cases {
+				order = append(order, n.pref)
 			}
+			for i := 0; i < cases; i++ {
+				if i != n.pref {
+					order = append(order, i)
+				}
+			}
+			n.pref = -1
 			return order
 		}, func(name string, i int) {
 			if strings.HasPrefix(name, "handleLiveEvent") {
@@ -559,7 +568,7 @@ func (n *node) stop() {
 // pumpSM releases the gated state machine kernel pass by pass until a pass finds no input ready or the kernel
 // waits elsewhere; it reports whether any pass consumed an input.
 func (n *node) pumpSM() bool {
-	if n.gate == nil {
+	if n.gate == nil || n.batch > 0 {
 		return false
 	}
 	progressed := false
